@@ -201,6 +201,10 @@ func runC08(c *Ctx) {
 		}
 	}
 
+	// ---------------------------------------------------------------- R5
+	c.rule("R5", "a connection whose read or write failed is marked dead on every path (close-with-error), for every connection kind", 5)
+	checkIOErrorCloses(c)
+
 	// ---------------------------------------------------------------- R4
 	c.rule("R4", "dead connections leave the pools when detected / when they close", 4)
 	if g := c.fn(relTransport, "PipelineTransport", "getReservedExchanger"); g != nil {
